@@ -383,7 +383,7 @@ func runExport(hseed uint64, blocks int, dir string, flavour int) {
 		case flavour == 0: // quiet history: empty blocks only (the base case of the round trip)
 			tm = tm.Add(time.Minute)
 			blk = chain.Block{Time: tm, Proposer: w.Vals[r.Intn(len(w.Vals))].Addr, Votes: votes(w, nil)}
-		case flavour == 1 || r.Chance(1, 2): // the shared generator (flavour 3: without the unstake messages): sends, node + app traffic, gov, dao, evidence
+		case flavour == 1 || (flavour != 4 && r.Chance(1, 2)): // the shared generator (flavour 3: without the unstake messages): sends, node + app traffic, gov, dao, evidence
 			var ds []chain.TxDesc
 			blk, ds = w.GenBlock(r, tm, n.Height+1, 4)
 			tm = blk.Time
@@ -563,7 +563,7 @@ func main() {
 	hseed := flag.Uint64("hseed", 0, "internal: history seed")
 	blocks := flag.Int("blocks", 25, "maximal number of blocks per history")
 	dir := flag.String("dir", "", "internal: history directory")
-	flavour := flag.Int("flavour", -1, "internal: 0 quiet, 1 shared generator, 2 mixed + claims, 3 mixed without unstaking")
+	flavour := flag.Int("flavour", -1, "internal: 0 quiet, 1 shared generator, 2 mixed + claims, 3 mixed without unstaking, 4 application lifecycle only")
 	keep := flag.Bool("keep", false, "keep the per-history directories")
 	flag.Parse()
 	switch *role {
@@ -582,7 +582,7 @@ func main() {
 	base, _ := filepath.Abs(*out + ".d")
 	for i := 0; i < *n; i++ {
 		hs := r.U64() % 1000000
-		fl := []int{0, 3, 2, 3, 1, 3, 2, 3}[i%8]
+		fl := []int{0, 3, 4, 2, 3, 1, 3, 4}[i%8]
 		bl := 3 + r.Intn(*blocks)
 		d := filepath.Join(base, fmt.Sprintf("h%d", hs))
 		os.RemoveAll(d)
